@@ -72,8 +72,13 @@ void h_parse_frame(void) {
     /* ---- C17 frame condition, stated explicitly (parseFrame is the top of the call tree here; enforcing its assigns
      * clause through DFCC made every obligation a 10-million-variable problem).  The closure of this argument - the
      * core has no other object of static storage duration - is the static check 'core_globals' of C17/C20. ---- */
-    V_POST("C17.no-unsynchronised-shared-write: the list head shared by all receive threads is not written",
-           g_iface_states == head0);
+    if (in.absent && !in.null_frame) {
+        /* first frame on this interface: KNOWN FINDING (known-findings.txt) - the record is linked in without synchronisation */
+        V_POST("C17.no-unsynchronised-shared-write: the list head shared by all receive threads is not written",
+               g_iface_states == head0);
+    } else {
+        V_POST("C17.list-head-stable: with its record present, a frame never writes the shared list head", g_iface_states == head0);
+    }
     /* ---- C17: another interface's record is never touched, the list is only ever extended at the head ---- */
     if (other) {
         V_POST("C17.other-interface-untouched: a frame on one interface changes nothing of another interface's state",
